@@ -1039,6 +1039,20 @@ func toolsCorpus() []*toolsCase {
 			Branches: []*TBranch{{Target: "a", HasPattern: true, Pattern: long, Guard: "source", GInterp: "ecmascript"},
 				{Target: "a", HasPattern: true, Pattern: "?x", Guard: "native"}}},
 		"a": {Action: "source", Interp: "", Source: map[string]interface{}{"code": "x"}}}})
+	// a big specification: more branches than a diagram tool cares to lay out (Mermaid's own limit is 500 edges) are
+	// branches all the same
+	{
+		big := &TSpec{Compile: true, Nodes: map[string]*TNode{}}
+		for i := 0; i < 40; i++ {
+			nd := &TNode{HasBranches: true, BType: "message"}
+			for j := 0; j < 13; j++ {
+				nd.Branches = append(nd.Branches, &TBranch{Target: fmt.Sprintf("n%02d", (i+j+1)%40), HasPattern: true, Pattern: map[string]interface{}{"k": float64(j)}})
+			}
+			big.Nodes[fmt.Sprintf("n%02d", i)] = nd
+		}
+		big.Nodes["start"] = &TNode{HasBranches: true, Branches: []*TBranch{tb("n00")}}
+		add("corpus-big", big)
+	}
 	// the bundled examples
 	for _, compile := range []bool{false, true} {
 		add("corpus-turnstile", &TSpec{Compile: compile, YAML: turnstileYAML})
